@@ -29,7 +29,7 @@ REQUIRED = ["Sqfs.C17." + n for n in (
     "dont_compress_words", "dont_fragment_effect", "nosparse_effect", "no_tail_packing_only_large",
     "no_tail_packing_layout", "dont_compress_effect", "dont_dedup_effect", "layout_follows_order",
     "directives_preserve_content", "export_table_ok", "quoted_name_decodes", "directives_preserve_tree",
-    "directives_preserve_size", "export_array_refines", "export_table_written", "export_table_of_tree")]
+    "directives_preserve_size", "export_array_refines", "export_table_written", "export_table_of_tree", "exCodec_ok")]
 ALL_ERR_KINDS = {"number", "overflow", "filename", "bracket", "flaglist", "afterflags", "unknownflag", "unmatched", "escape",
                  "trailing", "canon"}
 TOOL_TIMEOUT = 1800        # seconds; generous: a timeout is reported as a result of the real code, never hit by load alone
